@@ -124,6 +124,10 @@ func main() {
 		workerMain()
 		return
 	}
+	if spec := os.Getenv("C11_SCALE"); spec != "" {
+		scaleChild(spec)
+		return
+	}
 	if dir := os.Getenv("C11_SEEDBUILD"); dir != "" {
 		relicx.Quiet()
 		sb := buildSeeds(dir)
@@ -202,6 +206,9 @@ func main() {
 		return
 	}
 	e.execute()
+	if !replayOnly {
+		scalePhase(run)
+	}
 	e.report()
 	finish()
 }
